@@ -64,7 +64,7 @@ def _collect(mi: ModuleInfo, body) -> None:
         if isinstance(node, ast.ImportFrom) and node.module and node.level == 0:
             for a in node.names:
                 mi.imports[a.asname or a.name] = f"{node.module}.{a.name}"
-        elif isinstance(node, ast.ImportFrom) and node.level > 0 and not os.environ.get("PYVC_NO_RELIMPORT"):
+        elif isinstance(node, ast.ImportFrom) and node.level > 0:
             # relative import (`from .discipline import Discipline` in a package __init__): resolved against the module's package
             base = mi.name.split(".")
             base = base[: len(base) - node.level + (1 if mi.path.name == "__init__.py" else 0)]
